@@ -92,6 +92,19 @@ def spec_nodes(spec: dict) -> list[dict]:
 OTHER_ORIGINS = [["code", 0, 1, 2], ["gen", 1], ["xml", 3, "/q"], ["multi", [["code", 0, 0, 1], ["gen", 2]]], ["no"]]
 
 
+def _colliding_sets() -> list[dict]:
+    """frozensets of ints whose hashes collide in an 8-slot table (so that the iteration order of a
+    set of them depends on insertion order), none a subset of another where possible."""
+    import itertools
+
+    by_slot: dict[int, list] = {}
+    for r in (1, 2, 3):
+        for c in itertools.combinations(range(7), r):
+            by_slot.setdefault(hash(frozenset(c)) & 7, []).append(list(c))
+    best = max(by_slot.values(), key=len)
+    return [{"$fs": c} for c in best[:6]]
+
+
 def _different_value(kind: str, cur: Any) -> Any:
     if kind == "int":
         return (cur if isinstance(cur, int) and not isinstance(cur, bool) else 0) + 1
@@ -224,9 +237,9 @@ def mutate(spec: dict, kind: str, n: int) -> tuple[dict, dict, bool]:
         if x is None:
             return a, b, False
         idx = nodes.index(x)
-        pools = {"fs": [8, 16, 0, 24, -1, 32], "fss": ["b", "a", "zz", "", "aa", "c"]}
-        fname = "fs" if n % 2 else "fss"
-        k = 2 + (n // 2) % 4
+        pools = {"fs": [8, 16, 0, 24, -1, 32], "fss": ["b", "a", "zz", "", "aa", "c"], "ffs": _colliding_sets()}
+        fname = ("fs", "fss", "ffs")[n % 3]
+        k = 2 + (n // 3) % 4
         elems = pools[fname][:k]
         perm = elems[1:] + elems[:1] if (n // 16) % 2 else list(reversed(elems))
         spec_nodes(a)[idx]["node"].setdefault("p", {})[fname] = {"$fs": elems}
@@ -353,10 +366,10 @@ def _enode_to_spec(e: T.ENode) -> dict:
         import enum
         from pathlib import PurePath
 
+        if isinstance(v, enum.Enum):
+            return {"$se" if isinstance(v, str) else "$e": v.name}
         if isinstance(v, bool) or v is None or isinstance(v, (int, str, float)):
             return v
-        if isinstance(v, enum.Enum):
-            return {"$e": v.name}
         if isinstance(v, PurePath):
             return {"$p": v.as_posix()}
         if isinstance(v, tuple):
